@@ -172,7 +172,7 @@ pub fn check(_ctx: &Ctx, genome: &[u16]) -> CaseReport {
 
 pub fn parts() -> Vec<Part> {
     vec![Part { name: "model", genome_len: 160, cases_quick: 200_000, cases_thorough: 5_000_000, threads: 16,
-        max_shrink_iters: 4000, check: Box::new(check) }]
+        max_shrink_iters: 4000, check: Box::new(check), remote: None }]
 }
 
 pub const RULE: &str = "genome -> 1-4 axes, origin + up to 9 distinct normalized locations (grid {0,+-.25,+-.5,+-.75,+-1} or arbitrary F2Dot14), 1-3 values per location, random subset (always incl. origin) defines values; non-trivial = (>=3 locations using >=2 axes) or (>=2 distinct coordinates on one side of one axis); distinct = hash of (sorted locations, values, valued mask)";
